@@ -11,6 +11,16 @@ Two kinds of cases:
   crafted  the same AgentsMgt object driven without threads by a crafted event sequence
            (missing / repeated / unknown computations, early stop requests, unknown message
            types, partial assignments) -- the glue and error paths a clean run never takes.
+  composed thread-free composition of the REAL layers: DpopAlgo computations under the seeded
+           netdriver (C01's generator and schedule policies), hosted by real, never started
+           OrchestratedAgents (Agent.add_computation's notify_wrap, OrchestrationComputation), whose
+           management messages travel through the agents' Messaging and the in-process layer into
+           the queue of a real, never started Orchestrator; the harness pops the queue into
+           AgentsMgt.on_message.  Checked by M_OrchDpop.check_ccase: the DPOP layer replays (C01's
+           check), the AgentsMgt layer replays, the value/end messages AgentsMgt handled are
+           exactly M_OrchDpop.mgmt_of of the events of the DPOP model under the same schedule
+           (link + thread-mode transport), and the orchestrator's DCOP object is dcop_of the DPOP
+           model's dcop.  These are the hypotheses of Prop_C22.orch_dpop_result_optimal.
 The oracle is an independent statement of C22: finished-not-timeout, total optimal assignment
 (brute force), cost / violation equal to a separate accounting of that assignment.
 """
@@ -39,29 +49,47 @@ RUN_TIMEOUT = 90          # orchestrator.run(timeout=...): generous, a clean run
 RULE = ("25% real thread-mode DPOP runs (3-6 variables, domains 2-3, random connected constraint "
         "graphs with unary/binary/ternary integer-cost matrix constraints incl. the 'infinity' "
         "constant, min and max, distributions oneagent/adhoc/gh_cgdp/random, switch interval "
-        "1e-6..5e-3 s), 75% crafted thread-free event sequences on the real AgentsMgt; "
-        "non-trivial = at least 3 value/end events; distinct = distinct case JSON")
+        "1e-6..5e-3 s), 50% crafted thread-free event sequences on the real AgentsMgt, 25% composed "
+        "thread-free runs (C01's dcops: 1-7 variables, n-ary matrix constraints, forests, variable "
+        "costs, 10% tables with the infinity constant; seeded netdriver schedules, 15% truncated; "
+        "1-4 real OrchestratedAgents, real orchestrator queue drained never/sometimes/always "
+        "between steps); non-trivial = at least 3 value/end events; distinct = distinct case JSON")
 MODELLED = ("AgentsMgt bookkeeping (registration, deploy, run, value collection, end-of-computation "
             "detection, stop, global_metrics with solution_cost) is modelled; theorems: stop is sent "
             "exactly when the last graph computation reports its end, the reported assignment is the "
             "last value of every computation, cost/violation are the accounting of that assignment "
-            "(None iff a variable has no value); optimality of DPOP's values is a hypothesis of the "
-            "composed theorem (C01) and is checked on every real run by brute force; real threads, "
-            "timers and the timeout itself are only exercised by the runs")
+            "(None iff a variable has no value and scopes are variables); the composition with the DPOP "
+            "network model of C01 is a theorem under an explicit assumption on the management transport "
+            "(per-computation FIFO, no loss/duplication/invention; proved for the thread-mode queue order): "
+            "the stop order is never early, is sent at quiescence, the reported assignment is total = "
+            "DPOP's values = optimal, cost + infinity*violation = the optimum; the link (events -> "
+            "management messages, DCOP object) is tied to the real OrchestratedAgent / Messaging code by "
+            "the composed cases; real threads, timers, the timeout itself and that run orders start the "
+            "computations are only exercised by the runs")
 META = dict(
     level_text=("Partial proof (Coq): for the model of the orchestrator's management computation, for "
                 "every message trace, Stop is sent to all registered agents exactly when the handled "
                 "message is an end_of_computation and all computations of the graph have then ended; "
                 "the reported assignment is the last value_change of each computation; the reported "
                 "(violation, cost) is the DCOP's accounting of that assignment, None iff some variable "
-                "has no value; if those values are optimal (C01's conclusion, a hypothesis here) the "
-                "reported result is total and optimal. The model is tied to orchestrator.py/dcop.py by "
-                "replaying the management-message traces of real thread-mode DPOP runs and crafted "
-                "thread-free sequences on every check; an independent oracle checks finished-not-"
-                "timeout, optimality by brute force and the cost accounting on each real run."),
+                "has no value. Composed with the DPOP network model of C01 (proved optimal for all "
+                "schedules) through an explicit link model, under a stated assumption on the management "
+                "transport (per computation: what AgentsMgt handled is a prefix of what was posted, in "
+                "order; nothing else names a computation; proved to hold for a FIFO queue): for every "
+                "DCOP passing C01's checker, every schedule and every such trace, the stop order is only "
+                "sent when all computations finished and the value table is final, it is sent once the "
+                "network is quiescent and the messages handled, the reported assignment is total, equals "
+                "DPOP's values and is optimal, and cost + infinity*violation equals the optimum. The "
+                "models are tied to orchestrator.py/orchestratedagents.py/agents.py/dcop.py by replaying "
+                "management traces of real thread-mode DPOP runs, crafted thread-free sequences and "
+                "thread-free compositions of the real layers on every check; an independent oracle checks "
+                "finished-not-timeout, optimality by brute force, the cost accounting and the transport "
+                "assumption on each run."),
     level_note=("Not covered by theorems: OS threads, timers, the timeout, agent start-up/registration "
-                "through the in-process communication layer, DPOP itself (C01). Trusted: Coq kernel, "
-                "M_Orch.v, the harness. Real runs use a forked child per run with a hard limit."),
+                "through the in-process communication layer, that the run orders make agents start the "
+                "computations, the management transport itself (an assumption, checked on every run). "
+                "Trusted: Coq kernel, M_Orch.v, M_OrchDpop.v, M_Dpop.v, the harness. Real runs use a "
+                "forked child per run with a hard limit."),
     technique="Coq proof over executable Gallina state machine + trace replay of real threaded runs",
     design_ref="DESIGN.md §5 C22",
 )
